@@ -3,6 +3,7 @@
 //!                                  unwinding assertions on) over full-domain symbolic inputs
 //! bnd_*                          : bounded stand-ins (bound in the name / props.py), never counted as proved
 #![allow(unused_imports, dead_code)]
+extern crate alloc;
 #[cfg(kani)]
 mod canary;
 #[cfg(kani)]
@@ -11,3 +12,9 @@ mod a3_varint;
 mod a5_bytes;
 #[cfg(kani)]
 mod rwext;
+#[cfg(kani)]
+mod c11_writer;
+#[cfg(kani)]
+mod c11_reader;
+#[cfg(kani)]
+mod prost_scalar;
